@@ -115,6 +115,10 @@ type worldCfg struct {
 	KeyType string        `json:"key"` // p256 | p384 | rsa2048
 	PKCS8   bool          `json:"pkcs8"`
 	FileDir string        `json:"file_dir,omitempty"` // files stratum: cert.pem/key.pem/root.pem live here
+	// OutputCerts: the agent also writes what it issues to this directory (OUTPUT_CERTS). The values used name the
+	// well-known certificate directory ./etc/certs of the working directory under different spellings; the agent must
+	// never take its own output for file-mounted certificates (it would never rotate again).
+	OutputCerts string `json:"output_certs,omitempty"`
 }
 
 type world struct {
@@ -159,6 +163,13 @@ func newWorld(c *vh.Ctx, cfg worldCfg, script []caBeh, dflt caBeh) *world {
 		SecretRotationGracePeriodRatio:       cfg.Ratio,
 		SecretRotationGracePeriodRatioJitter: cfg.Jitter,
 		Pkcs8Keys:                            cfg.PKCS8,
+	}
+	if cfg.OutputCerts != "" {
+		// as pilot-agent configures it: the well-known file locations are always set, OUTPUT_CERTS on top
+		opts.OutputKeyCertToDir = cfg.OutputCerts
+		opts.CertChainFilePath = security.DefaultCertChainFilePath
+		opts.KeyFilePath = security.DefaultKeyFilePath
+		opts.RootCertFilePath = security.DefaultRootCertFilePath
 	}
 	if cfg.FileDir != "" {
 		opts.CertChainFilePath = filepath.Join(cfg.FileDir, "cert.pem")
